@@ -66,6 +66,11 @@ def run(ck: Checker, prog: Program, tier: str):
     ck.guard(S.check_accessor_table, ck, prog, cls, "C05.R3", TABLE, GUARDS)
     ck.guard(_cov, ck, prog, cls, "C05.R3", weighted=False)
     ck.guard(S.check_mask_lockstep, ck, prog, "C05.R4")
+    # "windows without a peak never enter the resonance statistics": the per-window peak search records NaN / False for an
+    # absent peak on every path, and the curves the statistics describe are private copies (rules of C08)
+    from . import c08
+    with ck.borrow(c08, "C05.R1+"):
+        ck.guard(c08._r2, ck, prog)
 
 
 def _single_window_guard(ck: Checker, prog: Program, cls):
